@@ -115,8 +115,11 @@ func (vm *VM) GetLocals(locals []Object) []Object {
 // Abort aborts the VM execution. It is safe to call this method from another
 // goroutine.
 func (vm *VM) Abort() {
+	verifSync("abort.enter", vm)
 	vm.pool.abort()
+	verifSync("abort.mid", vm)
 	vm.abort.Store(1)
+	verifSync("abort.exit", vm)
 }
 
 // Aborted reports whether VM is aborted. It is safe to call this method from
@@ -135,7 +138,9 @@ func (vm *VM) Run(globals Object, args ...Object) (Object, error) {
 	}
 
 	vm.err = nil
+	verifSync("run.enter", vm)
 	vm.abort.Store(0)
+	verifSync("run.reset", vm)
 	vm.initGlobals(globals)
 	vm.initLocals(args)
 	vm.initCurrentFrame()
@@ -1615,10 +1620,12 @@ func (inv *Invoker) acquire(usePool bool) {
 	if inv.child != nil {
 		return
 	}
+	verifSync("invoke.acquire", inv.vm)
 	inv.child = inv.vm.pool.acquire(
 		inv.callee.(*CompiledFunction),
 		usePool,
 	)
+	verifSync("invoke.acquired", inv.child)
 	if usePool {
 		inv.dorelease = true
 	}
@@ -1647,6 +1654,7 @@ func (inv *Invoker) Invoke(args ...Object) (Object, error) {
 	if inv.child.Aborted() {
 		return Undefined, ErrVMAborted
 	}
+	verifSync("invoke.checked", inv.child)
 	return inv.child.Run(inv.vm.globals, args...)
 }
 
